@@ -122,3 +122,15 @@ Theorem C15_graph_rows_complete : forall rootname tids s, wf_stream s = true -> 
         time_unit (time_path p (ref_calls tids s) mod W64)) (tl (graph_rows (graph_build 0 rootname tids s))).
 Proof. exact graph_rows_complete. Qed.
 Print Assumptions C15_graph_rows_complete.
+
+(* `dump --chrome`, structure of the event list (whole-document JSON validity is checked by the tie, not proved):
+   for every well-formed stream whose tasks are listed, the executable checker ok_chrome accepts the model's
+   events, i.e. for each task its thread's events are exactly its records in order (B for ENTRY, E for EXIT, the
+   name a JSON parser reads is [shown name], ts = time/1000 . time mod 1000), followed by E events at the task's
+   last time stamp for the calls still open; the sequence is balanced, properly nested, every E names the
+   innermost open B, and time stamps do not decrease. *)
+Theorem C15_chrome_structure : forall tasks s,
+  wf_stream s = true -> NoDup (map fst tasks) -> (forall r, In r s -> In (fst r) (map fst tasks)) ->
+  ok_chrome tasks s (chrome_events tasks s) = true.
+Proof. exact chrome_structure. Qed.
+Print Assumptions C15_chrome_structure.
